@@ -206,7 +206,10 @@ def r_pin_interpreted(ctx: Ctx, model, prop="C15", rule="R-pin", check="pin"):
 
             def reader(method):
                 def f(I, v, a, k, n):
-                    reads.append((v.attrs["role"], method, dict(k), len(a)))
+                    kw_ = dict(k)
+                    if method in ("pressure", "loading") and a and "branch" not in kw_:
+                        kw_["branch"] = a[0]         # (branch is the first positional parameter of pressure() / loading())
+                    reads.append((v.attrs["role"], method, kw_, len(a)))
                     if method.endswith("_at") and a and not isinstance(a[0], Vec):
                         return Sy(f"{method}_{v.attrs['role']}")
                     return Vec([Sy(f"{method[0]}{i}_{v.attrs['role']}") for i in range(3)])
